@@ -10,6 +10,7 @@ import (
 type lockState struct {
 	writer  bool
 	readers int
+	wwait   int    // goroutines blocked in RWMutex.Lock
 	vc      vclock // release clock (writers)
 	rvc     vclock // release clock of readers
 }
@@ -45,7 +46,16 @@ func mLock(p *value, what string) {
 		S.yield(what)
 	}
 	l := lockOf(p)
-	S.block(func() bool { return !l.writer && l.readers == 0 }, what)
+	free := func() bool { return !l.writer && l.readers == 0 }
+	if what == "RWMutex.Lock" && !free() {
+		// a pending writer keeps new readers out (sync.RWMutex): a goroutine that read-locks
+		// twice deadlocks with a writer arriving in between
+		l.wwait++
+		S.block(free, what)
+		l.wwait--
+	} else {
+		S.block(free, what)
+	}
 	l.writer = true
 	g := S.cur
 	g.vc.join(l.vc)
@@ -71,7 +81,7 @@ func mRLock(p *value) {
 		S.yield("RLock")
 	}
 	l := lockOf(p)
-	S.block(func() bool { return !l.writer }, "RLock")
+	S.block(func() bool { return !l.writer && l.wwait == 0 }, "RLock")
 	l.readers++
 	S.cur.vc.join(l.vc)
 }
